@@ -47,7 +47,11 @@ var subjectCache = map[int][][]uint16{}
 func subjectPrefix(sp subjSpec) [][]uint16 {
 	l := subjectCache[sp.maxLen]
 	if l == nil {
-		l = SubjectsExt(sp.maxLen)
+		if sp.maxLen == litscanSubjectsID {
+			l = litscanSubjects()
+		} else {
+			l = SubjectsExt(sp.maxLen)
+		}
 		subjectCache[sp.maxLen] = l
 	}
 	n := sp.n
